@@ -23,6 +23,9 @@
 """
 from __future__ import annotations
 
+import contextlib
+import io
+
 import itertools
 import random
 from fractions import Fraction as F
@@ -162,10 +165,21 @@ def lib_validate(case: Case, W, b, pf, stable, exhaustive):
     inst, projs = core.build_instance(case)
     prof = core.build_profile(case, inst, projs)
     pfl = [{projs[c]: core.to_num(p[c]) for c in case.names} for p in pf]
+    # the verdict must not depend on the reporting switch: a third of the calls (chosen by the input, so that a replay makes
+    # the same choice) run with verbose=True, output discarded
+    verbose = verbose_for(case, W, stable, exhaustive)
     try:
-        return bool(validate_price_system(inst, prof, [projs[c] for c in W], core.to_num(b), pfl, stable=stable, exhaustive=exhaustive))
+        with contextlib.redirect_stdout(io.StringIO()):
+            return bool(validate_price_system(inst, prof, [projs[c] for c in W], core.to_num(b), pfl, stable=stable, exhaustive=exhaustive,
+                                              verbose=verbose))
     except Exception as e:  # noqa: BLE001
         return "err:" + core.err_enum(e)
+
+
+def verbose_for(case, W, stable, exhaustive):
+    import zlib
+
+    return zlib.crc32(("%s|%s|%d%d" % (case.key(), ",".join(sorted(W)), stable, exhaustive)).encode()) % 3 == 0
 
 
 def price_line(case: Case, W, b, pf, stable, exhaustive):
@@ -317,6 +331,7 @@ def judge(ctx, case, W, b, pf, stable, exhaustive, kind, origin, lines):
     got = lib_validate(case, W, b, pf, stable, exhaustive)
     ctx.evaluations += 1
     ctx.count("validator_kind", kind)
+    ctx.count("validator_verbose", str(verbose_for(case, W, stable, exhaustive)))
     ctx.count("validator_expect", "accept" if exact else "reject" if broken else "unspecified")
     cfg = {"part": "validator", "W": W, "b": q2s(b), "pf": [{c: q2s(v) for c, v in p.items()} for p in pf], "stable": stable,
            "exhaustive": exhaustive, "kind": kind, "origin": origin}
@@ -614,8 +629,9 @@ def lib_validate_relaxed(case: Case, W, b, pf, stable, exhaustive, kind, beta, b
             R._saved_beta["beta_global"] = core.to_num(beta)
     pfl = [{projs[c]: core.to_num(p[c]) for c in case.names} for p in pf]
     try:
-        got = bool(validate_price_system(inst, prof, [projs[c] for c in W], core.to_num(b), pfl, stable=stable, exhaustive=exhaustive,
-                                         relaxation=R))
+        with contextlib.redirect_stdout(io.StringIO()):
+            got = bool(validate_price_system(inst, prof, [projs[c] for c in W], core.to_num(b), pfl, stable=stable, exhaustive=exhaustive,
+                                             relaxation=R, verbose=verbose_for(case, W, stable, exhaustive)))
         rc = {c: core.toF(R.get_relaxed_cost(projs[c])) for c in case.names}
     except Exception as e:  # noqa: BLE001
         return "err:" + core.err_enum(e), None
